@@ -76,7 +76,7 @@ pub fn history_json(pool: &[Op], h: &[Step], inner: &str) -> J {
         .set("requests", J::Arr(h.iter().map(|s| step_json(pool, s)).collect()))
 }
 
-fn step_from_json(j: &J) -> Option<Step> {
+pub fn step_from_json(j: &J) -> Option<Step> {
     let idx = |d: &J| d.get("pool_index").and_then(|v| v.as_u64()).map(|v| v as usize);
     let src = j.get("src").and_then(|v| v.as_u64()).unwrap_or(0) as usize;
     let many = |k: &str| -> Option<Vec<usize>> { Some(j.get(k)?.as_arr()?.iter().filter_map(idx).collect()) };
